@@ -8,7 +8,7 @@ import driver
 d = json.load(open(sys.argv[1]))
 ctx = driver.Ctx(d['property'], 'quick')
 try:
-    rr = ctx.replay(d['files'], d['pkgdir'], driver.MOD + '/' + d['pkgdir'], d['entry'], d['inputs'])
+    rr = ctx.replay(d['files'], d['pkgdir'], driver.MOD + '/' + d['pkgdir'], d['entry'], d['inputs'], params=d.get('params'))
     print(json.dumps(rr, indent=1))
     bad = rr and (d['label'] in rr.get('failed', []) or (d['label'].startswith('panic:') and rr.get('panic')))
     print('REPRODUCED' if bad else 'not reproduced')
